@@ -41,6 +41,8 @@ type c16Params struct {
 	NoIterMetrics bool `json:"no_iter_metrics,omitempty"`
 	// PrepareAll: all runs of the case are constructed (NewRun) before the first one executes.
 	PrepareAll bool `json:"prepare_all,omitempty"`
+	// Gateway: the runs push to one (loopback) push gateway; what it holds after each run mirrors that run
+	Gateway bool `json:"gateway,omitempty"`
 }
 
 var c16Keys = []string{"region", "Region", "zone", "az", "team", "Team", "env", "build_id", "a", "b", "A", "z9", "_x", "cluster", "Cluster", "k8s_ns"}
@@ -101,6 +103,7 @@ func init() {
 					}
 					p.Runs = append(p.Runs, rp)
 				}
+				p.Gateway = i%4 == 1
 				p.NoIterMetrics = i%6 == 5
 				p.PrepareAll = i%3 == 2
 				p.Desc = fmt.Sprintf("labels=%d runs=%d same=%v itermetrics=%v prepareAll=%v", len(p.Labels), nr, same, !p.NoIterMetrics, p.PrepareAll)
@@ -126,6 +129,11 @@ func c16Runs(c *core.Case, o *core.Outcome) {
 		if _, ok2 := p.Labels["region"]; ok2 {
 			anyCollide = true
 		}
+	}
+	var gw *engine.Gateway
+	if p.Gateway {
+		gw = engine.NewGateway(200)
+		defer gw.Close()
 	}
 	var runCtx []context.Context
 	var runEnd []func()
@@ -195,6 +203,9 @@ func c16Runs(c *core.Case, o *core.Outcome) {
 		spec.Labels = p.Labels
 		spec.IgnoreDropped = true
 		spec.NoIterationMetrics = p.NoIterMetrics
+		if gw != nil {
+			spec.PushGateway = gw.URL()
+		}
 		_ = ri
 		pre = append(pre, func() prepared {
 			r, fr := engine.Prepare(spec, l, scenario, hooks, inst)
@@ -303,6 +314,18 @@ func c16Runs(c *core.Case, o *core.Outcome) {
 		}
 		if !check("at return") {
 			return
+		}
+		if gw != nil {
+			n, held, bad := gw.Pushes()
+			wantS, wantF, wantD := su, fa, dr
+			if p.NoIterMetrics {
+				wantS, wantF, wantD = 0, 0, 0
+			}
+			if n == 0 || bad > 0 || held["success"] != wantS || held["fail"] != wantF || held["dropped"] != wantD {
+				o.Violate("gateway:"+desc, "after this run the push gateway (%d pushes so far, %d unreadable) holds success=%d fail=%d dropped=%d for the job, the run's result is %d/%d/%d: what is exported mixes in an earlier run or misses this one (%s)", n, bad, held["success"], held["fail"], held["dropped"], wantS, wantF, wantD, desc)
+				return
+			}
+			o.AddObs("gateway_states_checked", 1)
 		}
 		time.Sleep(250 * time.Millisecond)
 		if !check("250ms after return") {
